@@ -48,7 +48,7 @@ def instrument(name):
             raise MachineryError("goinstr build failed:\n" + r.stdout)
     extra = {}
     for pkg, files, rename in INSTRUMENT.get(name, []):
-        outd = os.path.join(orch.BUILD, "instr", name, pkg)
+        outd = os.path.join(orch.BUILD, "instr_%d" % os.getpid(), name, pkg)
         os.makedirs(outd, exist_ok=True)
         cmd = [tool, "-out", outd]
         if rename:
@@ -62,9 +62,17 @@ def instrument(name):
     return extra
 
 
+_built = {}
+
+
 def build(name):
+    if name in _built and os.path.exists(_built[name]):
+        return _built[name]
     pkg, race = BINARIES[name]
-    return go_build(name, pkg, race=race, extra_overlay=instrument(name))
+    _built[name] = go_build(name, pkg, race=race, extra_overlay=instrument(name))
+    import shutil
+    shutil.rmtree(os.path.join(orch.BUILD, "instr_%d" % os.getpid()), ignore_errors=True)
+    return _built[name]
 
 
 @check("C19")
@@ -126,8 +134,8 @@ def c09(tier):
     b = build("flow")
     res = [run_space(b, "ipfix.perturb", tier), run_space(b, "v9.perturb", tier)]
     return finish("C09", tier, res,
-                  rule="5 base messages (2-3 data sets over 4 templates incl. variable-length fields, an options template, and octet-array contents that look like a set header of a known template) x insertion position 0..n x one undecodable set: every reserved id (IPFIX 4..255, v9 2..255), unknown template ids {256,999,65535}, data sets of two templates naming an element absent from the model (scope / non-scope), bodies of 0..9 octets and a body that is itself a valid set; templates pre-announced or in-message; "
-                       "then every truncation offset 0..len of every base and perturbed message (counter 'truncations'). Quick: every id with 3 bodies and 7 boundary ids with all 11 bodies; thorough: all ids x all bodies. Non-trivial = every case; distinct = wire octets x template placement.",
+                  rule="5 base messages (2-3 data sets over 4 templates incl. variable-length fields, an options template, and octet-array contents that look like a set header of a known template) x insertion position 0..n x one undecodable set: every reserved id (IPFIX 4..255, v9 2..255), unknown template ids {256,999,65535}, data sets of two templates naming an element absent from the model (scope / non-scope), bodies of 0..9 octets, a body that is itself a valid set, and such inner sets followed by further octets; templates pre-announced or in-message; "
+                       "then every truncation offset 0..len of every base and perturbed message (counter 'truncations'). Quick: every id with 5 bodies and 7 boundary ids with all 13 bodies; thorough: all ids x all bodies. Non-trivial = every case; distinct = wire octets x template placement.",
                   assumptions=FLOW_ASSUME + ["IPFIX set ids 0 and 1 ('not used', RFC 7011 3.3.2) are not counted among the reserved ids",
                                              "the records of the complete datagram used by the truncation oracle are the implementation's own decode of it (differential), its correctness is C03/C06"], t0=t0)
 
@@ -238,10 +246,10 @@ def c20(tier):
 def c04(tier):
     t0 = time.time()
     b = build("flow")
-    res = [run_space(b, "cache.bfs", tier, nshards=2, hang_s=300)]
+    res = [run_space(b, "cache.bfs", tier, hang_s=300)]
     return finish("C04", tier, res,
-                  rule="explicit-state BFS to closure, IPFIX and NetFlow v9: state = reference map over 6 keys (A/256, A/257, the same IPv4 in 4-byte form, an IPv6 exporter, and two exporters whose addr||id collide under 32-bit FNV-1; thorough adds an IPv6 colliding pair) -> one of 3 (thorough 4) definitions of equal record length or none; events per key: announce alone / template then data in one message / data then template in one message / data / peer IRPC.Get / peer-fetched insert; "
-                       "successor = replay of the shortest history on a fresh real cache + the event; after every transition every key is probed with a data message (decoded under exactly ref[k], or 'unknown template' with no records) and the canonical cache content must be a function of the reference state. Non-trivial = every reference state; distinct by state.",
+                  rule="explicit-state BFS to closure, IPFIX and NetFlow v9: state = reference map over 6 keys (A/256, A/257, the same IPv4 in 4-byte form, an IPv6 exporter, and two exporters whose addr||id collide under 32-bit FNV-1; thorough adds an IPv6 colliding pair) -> one of 4 definitions (two element lists of equal length and type width, one with the same element but another field length, one with two fields) or none (thorough: 8 keys incl. an IPv6 colliding pair x 3 definitions, and 6 keys x 5 definitions); events per key: announce alone / template then data in one message / data then template in one message / data / peer IRPC.Get / peer-fetched insert; "
+                       "the reference model is searched on its own to enumerate every state with a shortest history (announcing event kinds rotate); each state is a case: successor = replay of that history on a fresh real cache + the event; after every transition every key is probed with a data message (decoded under exactly ref[k], or 'unknown template' with no records) and the canonical cache content must be a function of the reference state. Non-trivial = every reference state; distinct by state.",
                   assumptions=["states are merged on the reference map; the implementation's canonical cache content (read from the exported structure, timestamps dropped) is checked to be a function of it, which is what makes the merge sound",
                                "the FNV-colliding exporter pairs were found offline by a birthday search and are recomputed with hash/fnv at start-up",
                                "peer-fetched insert uses the cache's private insert through a verif-tagged export file injected by the overlay"], t0=t0)
